@@ -21,6 +21,7 @@ type feat struct {
 	seqGuard        bool // a syntactically valid sequence rejected by one of mkseq's overflow guards
 	emptyStart      bool // "{}" at the start of the (sub)text ignored by the gobbler
 	failedSeqNested bool // a comma-less amble that is not a sequence and contains a '{': bash keeps it literal as a whole
+	crossCase       bool // a letter range with one upper-case and one lower-case end (contains '\\' and '`')
 	zpadWide        bool // zero-padded sequence with a value outside int32: bash 5.2 formats (int)n, a bash defect
 }
 
@@ -292,6 +293,9 @@ func seqTerm(text string, f *feat) (out []string, ok bool, many bool) {
 	width := 0
 	if lt == tChar {
 		lv, rv = big.NewInt(int64(lhs[0])), big.NewInt(int64(rhs[0]))
+		if (lhs[0] >= 'a') != (rhs[0] >= 'a') {
+			f.crossCase = true
+		}
 	} else {
 		ll, rl := len(lhs), rhsNumLen
 		zint := false
